@@ -424,6 +424,13 @@ func checkC11(r *core.Run) {
 		{"import-then-use-later", []string{`import "strings"`, `x := strings.ToUpper("ab")`, "x"}, "AB|"},
 		{"var-updated-by-statement", []string{"var n = 1", "n += 4", "n"}, "5|"},
 		{"slice-shared-across-evals", []string{"var s = []int{1, 2}", "t := s", "t[0] = 9", "s[0]"}, "9|"},
+		{"func-literal-statement-runs-once", []string{"var c1 = 40", "func() { c1 += 2 }()", "c1 += 0", "c1"}, "42|"},
+		{"func-literal-call-value", []string{"var c2 = 40", "func() int { c2 += 2; return c2 }()"}, "42|"},
+		{"func-literal-value-then-call", []string{"f1 := func(x int) int { return x + 1 }", "f1(1)"}, "2|"},
+		{"func-decl-then-redefinition", []string{"func fd() int { return 1 }", "func fd() int { return 2 }", "fd()"}, "2|"},
+		{"multi-value-var-from-later-func", []string{"var m1, m2 = two()\nfunc two() (int, int) { return 4, 5 }", "m1 + m2"}, "9|"},
+		{"var-pair-depends-on-each-other", []string{"var q1, q2 = q2 + 1, 5", "q1"}, "6|"},
+		{"var-through-function-body", []string{"var w1 = fw()\nfunc fw() int { return w2 + 1 }\nvar w2 = 5", "w1"}, "6|"},
 	}
 	var mitems []core.BatchItem
 	for _, m := range minis {
@@ -432,9 +439,9 @@ func checkC11(r *core.Run) {
 	for q, br := range pool.RunBatch("c11mini", mitems, 8, 60000) {
 		switch {
 		case br.Crash != "":
-			r.Fail(br.ID, map[string]any{"diff": "the evaluating process died: " + firstLines2(br.Crash, 4), "chunks": minis[q].chunks, "tags": "known:cross-eval-var"})
+			r.Fail(br.ID, map[string]any{"diff": "the evaluating process died: " + firstLines2(br.Crash, 4), "chunks": minis[q].chunks, "tags": ""})
 		case br.Data["got"] != minis[q].want:
-			r.Fail(br.ID, map[string]any{"diff": fmt.Sprintf("got %q, want %q", br.Data["got"], minis[q].want), "chunks": minis[q].chunks, "tags": "known:cross-eval-var"})
+			r.Fail(br.ID, map[string]any{"diff": fmt.Sprintf("got %q, want %q", br.Data["got"], minis[q].want), "chunks": minis[q].chunks, "tags": ""})
 		default:
 			r.Ok(br.ID)
 		}
